@@ -447,6 +447,55 @@ fn main() {
         wide!(BinaryColor, BigEndianLsb0, 3, 300, 0);
         wide!(Gray2, LittleEndianMsb0, 5, 260, 3);
         wide!(Rgb565, LittleEndianMsb0, 2, 257, 0);
+        // fills whose far edge lies beyond i32::MAX while the area still overlaps the framebuffer (one
+        // row or one column of about 2^31 points: the documented default walks them all, a few seconds
+        // per case; seeded `C10-13`: a clipping fast path computing `start + length` with wrapping_add)
+        macro_rules! huge_fill {
+            ($c:ty, $o:ty, $w:expr, $h:expr, $reps:expr) => {{
+                const N: usize = (($w * <$c as PixelColor>::Raw::BITS_PER_PIXEL + 7) / 8) * $h;
+                type F = Framebuffer<$c, <$c as PixelColor>::Raw, $o, $w, $h, N>;
+                let name: &'static str = Box::leak(format!("fill-reaching-i32-max/Framebuffer<{},{},{}x{}>", <$c as Col>::name(), stringify!($o), $w, $h).into_boxed_str());
+                run.generate(name, $reps, false, 0.05, |ctx, idx, rng| {
+                    let mut fb = F::make();
+                    let (w, h) = ($w as i32, $h as i32);
+                    let (x0, y0) = (rng.i32r(-2, w - 1), rng.i32r(0, h - 1));
+                    let (x0, y0) = if idx % 2 == 0 { (x0, y0) } else { (rng.i32r(0, w - 1), rng.i32r(-2, h - 1)) };
+                    let long = match rng.below(4) {
+                        0 => i32::MAX as u32,
+                        1 => (i32::MAX as u32) + 1 + rng.u32r(0, 9),
+                        2 => (i32::MAX as u32) - rng.u32r(0, (w.max(h) as u32).min(3)),
+                        _ => (i32::MAX as u32) + rng.u32r(0, 70_000),
+                    };
+                    let area = if idx % 2 == 0 { rect(x0, y0, long, 1) } else { rect(x0, y0, 1, long) };
+                    let v = 1 + rng.below(0xffff) as u32;
+                    let c = <$c as Col>::from_u32(v);
+                    let case = || format!("{} fresh framebuffer, fill_solid({:?}, {:#x})", name, egmon::target::rt(&area), c.to_u32());
+                    ctx.eval();
+                    let _ = fb.fill_solid(&area, c);
+                    let zero = <$c as Col>::from_u32(0).to_u32();
+                    for y in 0..h {
+                        for x in 0..w {
+                            let inside = if idx % 2 == 0 { y == y0 && x >= x0 } else { x == x0 && y >= y0 };
+                            let want = if inside { c.to_u32() } else { zero };
+                            let got = fb.pixel(Point::new(x, y)).map(|c| c.to_u32());
+                            if got != Some(want) {
+                                ctx.violation("huge-fill|pixel-differs-from-last-write", case, || format!("pixel(({},{})) = {:x?}, expected {:#x}", x, y, got, want));
+                                return;
+                            }
+                        }
+                    }
+                    if c.to_u32() != zero {
+                        ctx.nontrivial(mix(egmon::rng::hash_str(name), mix(long as u64, ((x0 as u64) << 32) ^ y0 as u64)));
+                    }
+                    ctx.count("fills_reaching_beyond_i32_max", 1);
+                });
+            }};
+        }
+        let hreps = run.tier(2u64, 24u64);
+        huge_fill!(Gray8, LittleEndianMsb0, 8, 4, hreps);
+        huge_fill!(BinaryColor, BigEndianLsb0, 13, 5, hreps);
+        huge_fill!(Rgb565, BigEndianLsb0, 5, 3, hreps);
+        huge_fill!(Gray4, LittleEndianMsb0, 9, 4, hreps);
         orders!(BinaryColor);
         orders!(Gray2);
         orders!(Gray4);
